@@ -30,9 +30,37 @@ def S(name, default=None):
     return SHARD.get(name, default)
 
 
+_GLOBALS_SNAPSHOT = []
+
+
+def remember_module_state(mod):
+    """called by the loader right after a module of the code under test was executed"""
+    with untraced():
+        for attr, val in list(vars(mod).items()):
+            if attr.startswith('__') or type(val) not in (dict, list, set, collections.OrderedDict):
+                continue
+            _GLOBALS_SNAPSHOT.append((val, type(val)(val)))
+
+
+def _reset_module_state():
+    """Every symbolic path stands for a run in a fresh process: module-level containers of the code under test (memo
+    tables, registries a change may introduce) are put back to their state right after import.  Without this a cache
+    filled on one path changes the branches of the next and CrossHair aborts with NotDeterministic (seed C01-E)."""
+    with untraced():
+        for live, saved in _GLOBALS_SNAPSHOT:
+            if not live and not saved:
+                continue
+            live.clear()        # never compare contents: they may be dead symbolic values of the previous path
+            if isinstance(live, list):
+                live.extend(saved)
+            else:
+                live.update(saved)
+
+
 def begin():
     """call at the start of every condition body (one symbolic path = one call)"""
     _tags.clear()
+    _reset_module_state()
 
 
 def mark(tag):
